@@ -239,9 +239,42 @@ def run(prog, chk):
                 ok = bool(ens) and g.must_follow(g.entry, ens)
             chk.ob('R06.5', f, f.ln, ok, 'simulator %s: guard on parameter %s before any amplitude access' % (f.short, prm['name']),
                    key='sim-guard:%s#%d' % (f.short, j))
+    # flag setters: private helpers `set(int q, bool v) { if (in range) flag[q] = v; }` — a call with a literal is that write
+    setters = {}
+    for f in simfns:
+        if len(f.params) == 2 and f.params[0]['type'] == 'int' and f.params[1]['type'] == 'bool' and f not in (sim['measure'], sim['reset'], sim['allocate']):
+            gs_ = prog.cfg(f)
+            ws_ = [(n, l, r) for n, l, r, op in gs_.writes() if SX.member_chain(l)[1][:1] == [mf] and op == '=']
+            if len(ws_) == 1:
+                n_, l_, r_ = ws_[0]
+                l0 = SX.strip(l_)
+                i0 = SX.strip(l0.get('i')) if SX.is_node(l0) and l0.get('k') == 'index' else None
+                while SX.is_node(i0) and i0.get('k') == 'cast':
+                    i0 = SX.strip(i0['e'])
+                if SX.is_node(i0) and i0.get('id') == f.params[0]['id'] and SX.is_node(SX.strip(r_)) and SX.strip(r_).get('id') == f.params[1]['id'] and \
+                        all(_only_bounds(ce, f.params[0]['id'], mf) for ce, pol, _ in gs_.guards(n_)):
+                    setters[f.key] = f
+
+    def setter_call(e, want=None):
+        if not (SX.is_node(e) and e.get('k') == 'mcall'):
+            return False
+        if (e.get('callee', '') + e.get('sig', '')) not in setters:
+            return False
+        a = SX.real_args(e)
+        v_ = SX.strip(a[1]) if len(a) == 2 else None
+        return SX.is_node(v_) and v_.get('k') == 'bool' and (want is None or v_['v'] == want)
     # flag writes in the simulator
     for f in simfns:
+        if f.key in setters:
+            continue
         for n in SX.walk(f.body):
+            if n['k'] == 'mcall' and (n.get('callee', '') + n.get('sig', '')) in setters:
+                a_ = SX.real_args(n)
+                lit = SX.strip(a_[1]) if len(a_) == 2 else None
+                val = ('true' if lit['v'] else 'false') if SX.is_node(lit) and lit.get('k') == 'bool' else 'other'
+                want = 'true' if f is sim['measure'] else ('false' if f in (sim['reset'], sim['allocate']) else None)
+                chk.ob('R06.6', f, n.get('ln', f.ln), want is not None and val == want, 'simulator flag write (through %s) in %s (value %s)' % (SX.short(n['callee']), f.short, val),
+                       key='sim-flag-write:' + f.short)
             w = SX.write_target(n)
             if w:
                 root, names = SX.member_chain(w[0])
@@ -262,6 +295,7 @@ def run(prog, chk):
         g = prog.cfg(f)
         ws = [n for n, l, r, op in g.writes() if SX.member_chain(l)[1][:1] == [mf] and op == '='
               and SX.is_node(r) and r['k'] == 'bool' and r['v'] == want]
+        ws += [n for n in g.calls(lambda e, want=want: setter_call(e, want)) if SX.strip(SX.real_args(n.e)[0]).get('id') == (f.params[0]['id'] if f.params else None)]
         resize = [n for n in g.nodes if n.kind == 'call' and n.e['k'] == 'mcall' and SX.short(n.e['callee']) == 'resize'
                   and SX.member_chain(n.e['obj'])[1][:1] == [mf]]
         # every normal path sets the flag for in-range q: paths avoiding the write may only pass through bounds tests
